@@ -410,10 +410,15 @@ class D(P):
             self.eat("(")
             self.eat(")")
             if f == "size":
-                return "SNonEmpty %s" % self.side[tk]
+                e = "SNonEmpty %s" % self.side[tk]
+                if self.peek() in ("==", "!=", ">") and self.peek(1) == "0":
+                    op = self.eat()
+                    self.eat("0")
+                    return "SNot (%s)" % e if op == "==" else e
+                return e
             if f == "empty":
                 return "SNot (SNonEmpty %s)" % self.side[tk]
-        raise Unparsed("initial value of the flag: %r" % tk)
+        raise Unparsed("test on the sizes: %r" % tk)
 
     def sexpr_and(self):
         e = self.sexpr_primary()
@@ -1179,9 +1184,26 @@ def parse_distance(body, params):
 def parse_combine(body, params):
     """values_t ret; [ret.reserve(..);] ret.insert(std::end(ret), std::begin(x), std::end(x)); ...  return ret;"""
     t = tokenize(body)
-    p = P(t, params, "fitness")
-    # declaration: everything up to the first ';' ends with the name of the result
-    j = t.index(";")
+    p = D(t, params, "fitness")
+    guard = "SConst false"
+    if p.peek() == "if":
+        # if (<test on the sizes>) return basic_fitness_t<T>();   (the empty fitness)
+        p.eat("if"); p.eat("(")
+        guard = p.sexpr()
+        p.eat(")"); p.eat("return")
+        if p.accept("{"):
+            p.eat("}")
+        else:
+            if p.eat() != "basic_fitness_t":
+                raise Unparsed("early return of something else than the empty fitness")
+            p.skip_template_args()
+            if p.accept("("):
+                p.eat(")")
+            elif p.accept("{"):
+                p.eat("}")
+        p.eat(";")
+    # declaration: everything up to the next ';' ends with the name of the result
+    j = t.index(";", p.i)
     ret = t[j - 1]
     p.i = j + 1
     order = []
@@ -1224,7 +1246,7 @@ def parse_combine(body, params):
         order.append(a)
     if p.peek() is not None:
         raise Unparsed("trailing tokens")
-    return order
+    return guard, order
 
 
 def generate_arith(tcc, util):
@@ -1304,7 +1326,8 @@ def generate_arith(tcc, util):
 
     def f_comb():
         params, _, body = find_function2(tcc, BF + r"\s+combine\s*(?=\()")
-        return "VConcat [%s]" % "; ".join(parse_combine(body, params))
+        guard, order = parse_combine(body, params)
+        return "VConcat (%s) [%s]" % (guard, "; ".join(order))
     attempt("combine_def", f_comb)
 
     def f_rt():
